@@ -1,0 +1,31 @@
+"""Verification hooks.
+
+Inactive unless the environment variable OVLD_VERIF is set to "1" when ovld
+is imported. Even then, nothing changes until a harness installs a permuter
+(to control the iteration order of internal collections) or a sink (to
+receive events).
+"""
+
+import os
+
+ENABLED = os.environ.get("OVLD_VERIF") == "1"
+
+_permuter = None
+_sink = None
+
+
+def install(permuter=None, sink=None):
+    global _permuter, _sink
+    _permuter = permuter
+    _sink = sink
+
+
+def order(site, seq):
+    if _permuter is None:
+        return seq
+    return _permuter(site, seq)
+
+
+def emit(kind, **kw):
+    if _sink is not None:
+        _sink(kind, kw)
